@@ -115,7 +115,13 @@ pub enum Op {
     Stop { r: u8, code: u8 },
     DropRecv { r: u8 },
     SendDgram { len: u16 },
-    SendDgramWait { len: u16, c: Cancel },
+    /// `lazy`: the future is created, then the task yields that many times before polling it first
+    SendDgramWait {
+        len: u16,
+        c: Cancel,
+        #[serde(default)]
+        lazy: u8,
+    },
     ReadDgram(Cancel),
     Closed(Cancel),
     Close { code: u8 },
@@ -1094,6 +1100,27 @@ impl Ctx {
     }
 }
 
+/// A future created now and polled first only after the task has yielded `yields` times (an
+/// application that builds the future and gets to `.await` it later)
+struct LazyStart<F> {
+    inner: F,
+    yields: u8,
+}
+
+impl<F: Future> Future for LazyStart<F> {
+    type Output = F::Output;
+    fn poll(self: Pin<&mut Self>, cx: &mut Context<'_>) -> Poll<Self::Output> {
+        // SAFETY: `inner` is structurally pinned, `yields` is not; neither is moved out
+        let this = unsafe { self.get_unchecked_mut() };
+        if this.yields > 0 {
+            this.yields -= 1;
+            cx.waker().wake_by_ref();
+            return Poll::Pending;
+        }
+        unsafe { Pin::new_unchecked(&mut this.inner) }.poll(cx)
+    }
+}
+
 // ---------------------------------------------------------------------------------------------
 // Script interpreter
 // ---------------------------------------------------------------------------------------------
@@ -1969,7 +1996,7 @@ async fn exec_op(ctx: &Ctx, t: &mut Task, op: &Op) {
                 m.conns[ci].next_dgram
             };
             let data = Bytes::from(crate::app::dgram_payload(ctx.ckey(ci), id, len));
-            let res = if let Op::SendDgramWait { c, .. } = op {
+            let res = if let Op::SendDgramWait { c, lazy, .. } = op {
                 // not documented as cancel-safe: a cancelled attempt is never re-issued
                 let c1 = Cancel { at: c.at.iter().take(1).copied().collect(), on_wake: c.on_wake, retry: false };
                 ctx.m.borrow_mut().conns[ci].sides[side].dgram_maybe.insert(id, len);
@@ -1981,7 +2008,7 @@ async fn exec_op(ctx: &Ctx, t: &mut Task, op: &Op) {
                 let strict = strict("D8");
                 let gate = || cq.stats().frame_tx.datagram;
                 let (out, p, _) = ctx
-                    .run_shared_gated(t.cpend("send_datagram_wait"), &c1, None, &|| cq.send_datagram_wait(data.clone()), if strict { None } else { Some(&gate) })
+                    .run_shared_gated(t.cpend("send_datagram_wait"), &c1, None, &|| LazyStart { inner: cq.send_datagram_wait(data.clone()), yields: *lazy }, if strict { None } else { Some(&gate) })
                     .await;
                 match out {
                     Some(r) => r.map_err(|e| (e, p)),
@@ -2926,7 +2953,7 @@ fn arb_extra() -> impl Strategy<Value = Op> {
         3 => (1u32..400_000).prop_map(|us| Op::Sleep { us }),
         3 => Just(Op::Yield),
         3 => (8u16..1_300).prop_map(|len| Op::SendDgram { len }),
-        2 => (8u16..1_300, arb_cancel()).prop_map(|(len, c)| Op::SendDgramWait { len, c }),
+        2 => (8u16..1_300, arb_cancel(), prop_oneof![3 => Just(0u8), 1 => 1u8..4]).prop_map(|(len, c, lazy)| Op::SendDgramWait { len, c, lazy }),
         3 => arb_cancel().prop_map(Op::ReadDgram),
         1 => any::<u8>().prop_map(|s| Op::DropSend { s }),
         1 => any::<u8>().prop_map(|r| Op::DropRecv { r }),
